@@ -260,9 +260,32 @@ def _impl_tabq(case):
     return res
 
 
+def _impl_perm(case):
+    """a spectral-first cube (wavelength, lon, lat) whose composite frame lists the sky frame before the spectral one: the frame's
+    units are per world axis, whatever the order the member frames are listed in - values interface of the twins"""
+    ax = case["axes"]      # world axis order: spectral, lon, lat
+    out = cf.CompositeFrame([cf.CelestialFrame(reference_frame=coord.ICRS(), unit=(u.Unit(ax[1]["world"]), u.Unit(ax[2]["world"])), axes_order=(1, 2), name="sky"),
+                             cf.SpectralFrame(unit=u.Unit(ax[0]["world"]), axes_order=(0,), name="spec")], name="world")
+    det = cf.CoordinateFrame(naxes=3, axes_type=("SPATIAL",) * 3, axes_order=(0, 1, 2), name="detector", unit=(u.pix,) * 3)
+    pix = [np.array(p) if case["array"] else p[0] for p in case["pix"]]
+    res = {}
+    for nm, with_units in (("q", True), ("t", False)):
+        w = gw.WCS([(det, _transform(case, with_units)), (out, None)])
+        r = {"p2wv": _try(lambda: _vals(w.pixel_to_world_values(*pix)))}
+        if "err" not in r["p2wv"]:
+            world = [np.array(v) if case["array"] else float(np.asarray(v)) for v in r["p2wv"]["v"]]
+            r["w2pv"] = _try(lambda: _vals(w.world_to_pixel_values(*world)))
+            r["w2aiv"] = _try(lambda: _vals(w.world_to_array_index_values(*world)))
+        r["ai2wv"] = _try(lambda: _vals(w.array_index_to_world_values(*[np.asarray(np.floor(np.asarray(p) + 0.5), dtype=int) for p in pix][::-1])))
+        res[nm] = r
+    return res
+
+
 def impl(case):
     if case["family"] == "frames3":
         return _impl_frames3(case)
+    if case["family"] == "perm":
+        return _impl_perm(case)
     if case["family"] == "tabq":
         return _impl_tabq(case)
     wq = _build(case, True)
@@ -393,6 +416,21 @@ def oracle(case, res):
                 out.append(("values", "%s on the WCS whose look-up table holds quantities (%s, frame in %s) returns %s %s %s, its unit-free twin %s" %
                             (op, case["tunit"], case["wunit"], rq.get("kinds"), rq["v"], rq.get("units", ""), rt["v"])))
         return out
+    if case["family"] == "perm":
+        for op in ("p2wv", "w2pv", "ai2wv", "w2aiv"):
+            rq, rt = res["q"].get(op), res["t"].get(op)
+            if rq is None or rt is None:
+                continue
+            if "err" in rq or "err" in rt:
+                out.append(("values", "%s on the spectral-first cube (sky frame listed first): unit-carrying %s, unit-free %s" % (op, rq.get("msg", "ok"), rt.get("msg", "ok"))))
+            elif "Quantity" in rq["kinds"] or not all(_close(a, b) for a, b in zip(rq["v"], rt["v"])):
+                out.append(("twin", "%s on the spectral-first cube (frames listed sky, spectral; units %s): unit-carrying WCS gives %s, its unit-free twin %s" %
+                            (op, [a["world"] for a in case["axes"]], rq["v"], rt["v"])))
+        if "w2pv" in res["t"] and "err" not in res["t"]["w2pv"]:
+            pix = [p if case["array"] else p[0] for p in case["pix"]]
+            if not all(_close(a, b) for a, b in zip(res["t"]["w2pv"]["v"], pix)):
+                out.append(("roundtrip", "world_to_pixel_values(pixel_to_world_values(p)) = %s for p = %s" % (res["t"]["w2pv"]["v"], pix)))
+        return out
     q, t = res["q"], res["t"]
     n = len(case["axes"])
     for nm in ("q", "t"):
@@ -498,7 +536,7 @@ def _model_axes(case, twin):
 
 
 def request(case, res):
-    if case["family"] in ("frames3", "tabq"):
+    if case["family"] in ("frames3", "tabq", "perm"):
         return None
     if case["family"] == "tan" or case["array"] or "err" in res["q"]["p2wv"] or case.get("pixu"):
         return None
@@ -580,7 +618,7 @@ def nontrivial(case, res):
 
 def stats(case, res, st):
     st["family_" + case["family"]] += 1
-    if case["family"] in ("frames3", "tabq"):
+    if case["family"] in ("frames3", "tabq", "perm"):
         return
     if case.get("mixed"):
         st["mixed_user_inverse"] += 1
@@ -623,6 +661,10 @@ def gen(rng, tier):
                                           float(rng.randint(10, 300)), float(rng.randint(-60, 60))],
                "focal": [rng.randint(-200, 200) / 4.0, rng.randint(-200, 200) / 4.0], "alt": rng.choice(["arcsec", "arcmin", "deg", "rad"])}
     yield from _gen_main(rng, tier)
+    for _ in range(6 if tier == "quick" else 150):
+        arr = rng.random() < 0.4
+        axes = [_axis(rng, rng.choice([2, 3]), "x"), _axis(rng, 1, "lon"), _axis(rng, 1, "lat")]
+        yield {"family": "perm", "axes": axes, "array": arr, "pix": [[rng.randint(0, 255) / 4.0 + 0.125 for _i in range(3 if arr else 1)] for _a in axes]}
     for _ in range(6 if tier == "quick" else 120):
         n = rng.randint(4, 9)
         start = float(rng.randint(400, 900))
